@@ -61,7 +61,9 @@ func (t *Transaction) Confirm() error {
 
 func (t *Transaction) rollback() {
 	ctx := context.Background()
-	t.transactionManager.Rollback(ctx, t.GetRollbackTransaction())
+	rollbackTransaction := t.GetRollbackTransaction()
+	VerifYieldPoint("timer:before-manager-lock")
+	t.transactionManager.Rollback(ctx, rollbackTransaction)
 }
 
 func (t *Transaction) StartRollbackTimer() error {
